@@ -34,6 +34,7 @@
 -/
 import GherkinVerif.Lemmas.AstLocs
 import GherkinVerif.Lemmas.AstShape
+import GherkinVerif.KDecide
 namespace GV
 open Spec
 
@@ -125,13 +126,13 @@ open Lemmas.Ex
 /-- the hypotheses of `C03_ast_of_tree` are satisfiable: `astOf` succeeds on the tree, from
     counter 5 to counter 15, with both comments and one feature child -/
 example : docTree.isDocument = true := rfl
-example : ((astOf (commentsOf docTree) docTree).run.run 5).2 = 15 := by decide +kernel
+example : ((astOf (commentsOf docTree) docTree).run.run 5).2 = 15 := by kdecide
 example : (docOf ((astOf (commentsOf docTree) docTree).run.run 5)).map (fun d =>
       (d.comments.map (·.loc.line), d.feature.map (·.children.length))) = some ([2, 6], some 1) := by
-  decide +kernel
+  kdecide
 /-- … and the builder's run gives the same document -/
 example : (applyOps (opsOf docTree) BState.reset 5).2.1.result.toOption.join =
-    docOf ((astOf (commentsOf docTree) docTree).run.run 5) := by decide +kernel
+    docOf ((astOf (commentsOf docTree) docTree).run.run 5) := by kdecide
 
 /-- a failing tree: the short row makes the data table ragged; the error is raised when the
     `DataTable` node ends, after its three row ids were drawn -/
@@ -148,14 +149,14 @@ example :
         (fun nd => nd.items.map fun kv => (docOf (.ok kv.2, 0)).map (·.comments.length)) = some [some 2] ∧
     (docOf ((astOf (commentsOf nested) inner).run.run 0)).map (·.comments.length) = some 3 ∧
     (applyOps (opsOf nested) BState.reset 0).2.1.result.toOption.join.map (·.comments.length) = some 3 := by
-  decide +kernel
+  kdecide
 
 /-- `docTree` is grammar-shaped; its eleven elements in source order: the feature, three tags,
     the scenario, the step, two data-table rows, the examples block, header and body row — and
     these are the locations carried by its lines (the example tokens carry arbitrary line numbers) -/
-example : GrammarShaped docTree := by decide +kernel
+example : GrammarShaped docTree := by kdecide
 example : (docOf ((astOf [] docTree).run.run 5)).map srcLocs = some (elemLocs docTree) ∧
-    elemLines docTree = [1, 6, 6, 7, 5, 3, 9, 10, 8, 9, 10] := by decide +kernel
+    elemLines docTree = [1, 6, 6, 7, 5, 3, 9, 10, 8, 9, 10] := by kdecide
 
 /-- Why the shape is needed: a step line directly under the `Feature` node (not derivable from
     the grammar) is built without error and carries a location, but no element of the AST. -/
@@ -163,7 +164,7 @@ example :
     let bad : TTree := .node .GherkinDocument [.node .Feature [.node .FeatureHeader [.leaf featTok], .leaf stepTok]]
     GrammarShaped bad = False ∧
     (docOf ((astOf [] bad).run.run 0)).map srcLines = some [1] ∧ elemLines bad = [1, 3] := by
-  decide +kernel
+  kdecide
 
 end examples
 end GV
